@@ -269,6 +269,11 @@ func runC11(c *Ctx) {
 		r.Count(fmt.Sprint(in), true, "session")
 		r.Traces++
 	}
+	// one client, two servers: limits do not carry over
+	for _, first := range []string{"LINELEN=2048", "NICKLEN=60 USERLEN=40 HOSTLEN=200", "LINELEN=300"} {
+		c.run("linelenreconnect", map[string]string{"first": first})
+		r.Traces++
+	}
 	// a server that LOWERS the limit below the default, then messages whose lines fall between the new limit and the
 	// default one (they fit the default and must still be split)
 	for _, tok := range []string{"LINELEN=300 NICKLEN=20", "NICKLEN=50 USERLEN=30 HOSTLEN=100", "LINELEN=200", "NICKLEN=40 HOSTLEN=100", "LINELEN=400 NICKLEN=60"} {
